@@ -12,26 +12,28 @@ Local Open Scope R_scope.
    basis_herm d b      : (C_i)^dagger = C_i
    basis_orth d b      : tr(C_i C_j) = delta_ij
    basis_complete d b  : sum_k tr(C_k X) C_k = X for every X
-   label_ok d b is_ggm : the btype label 'GGM' is only attached to Basis.ggm(d)               *)
-Example C15_hypotheses_satisfiable : basis_herm 2 pauli1 /\ basis_orth 2 pauli1 /\ basis_complete 2 pauli1 /\ label_ok 2 pauli1 false.
-Proof. exact (conj pauli_herm (conj pauli_orth (conj pauli_complete (fun H => False_ind _ (Bool.diff_false_true H))))). Qed.
+   close_exact d b     : if b passes the code's test `b == Basis.ggm(d)` (entrywise within eps d^3, computed by the
+                         model: basis_is_ggm_flag) then b is Basis.ggm(d); needed only for the EXACT statements on
+                         the closed-form path -- C15_all_paths below has no such hypothesis                     *)
+Example C15_hypotheses_satisfiable : basis_herm 2 pauli1 /\ basis_orth 2 pauli1 /\ basis_complete 2 pauli1 /\ close_exact 2 pauli1.
+Proof. exact (conj pauli_herm (conj pauli_orth (conj pauli_complete (fun _ => pauli1_is_ggm2)))). Qed.
 
 (* L_ij = tr(C_i U C_j U^dagger), and this number is real (taking .real loses nothing) -- all paths *)
 Theorem C15_liouville_entries : forall d basis is_ggm U i j,
-  label_ok d basis is_ggm -> basis_herm d basis -> (i < length basis)%nat -> (j < length basis)%nat ->
+  close_exact d basis -> basis_herm d basis -> (i < length basis)%nat -> (j < length basis)%nat ->
   ftr d (fmul d (Cl basis i) (fmul d (toF U) (fmul d (Cl basis j) (fadj (toF U)))))
   = (rget RO (liouville_representation RO d is_ggm U basis) i j, 0).
 Proof. exact liouville_entries. Qed.
 Print Assumptions C15_liouville_entries.
 
 Theorem C15_liouville_id : forall d basis is_ggm i j,
-  label_ok d basis is_ggm -> basis_orth d basis -> (i < length basis)%nat -> (j < length basis)%nat ->
+  close_exact d basis -> basis_orth d basis -> (i < length basis)%nat -> (j < length basis)%nat ->
   rget RO (liouville_representation RO d is_ggm (mid RO d) basis) i j = if Nat.eqb i j then 1 else 0.
 Proof. exact liouville_id. Qed.
 Print Assumptions C15_liouville_id.
 
 Theorem C15_liouville_mult : forall d basis is_ggm U V i j,
-  label_ok d basis is_ggm -> basis_herm d basis -> basis_complete d basis ->
+  close_exact d basis -> basis_herm d basis -> basis_complete d basis ->
   (i < length basis)%nat -> (j < length basis)%nat ->
   rget RO (liouville_representation RO d is_ggm (mmul RO d U V) basis) i j
   = sumn' (length basis) (fun k => rget RO (liouville_representation RO d is_ggm U basis) i k
@@ -40,7 +42,7 @@ Proof. exact liouville_mult. Qed.
 Print Assumptions C15_liouville_mult.
 
 Theorem C15_liouville_orthogonal : forall d basis is_ggm U i j,
-  label_ok d basis is_ggm -> basis_herm d basis -> basis_orth d basis -> basis_complete d basis ->
+  close_exact d basis -> basis_herm d basis -> basis_orth d basis -> basis_complete d basis ->
   funitary d (toF U) -> (i < length basis)%nat -> (j < length basis)%nat ->
   sumn' (length basis) (fun k => rget RO (liouville_representation RO d is_ggm U basis) k i
                                  * rget RO (liouville_representation RO d is_ggm U basis) k j)
@@ -52,27 +54,27 @@ Proof. exact liouville_orthogonal. Qed.
 Print Assumptions C15_liouville_orthogonal.
 
 Theorem C15_liouville_adjoint : forall d basis is_ggm U i j,
-  label_ok d basis is_ggm -> (i < length basis)%nat -> (j < length basis)%nat ->
+  close_exact d basis -> (i < length basis)%nat -> (j < length basis)%nat ->
   rget RO (liouville_representation RO d is_ggm (madj RO d U) basis) i j
   = rget RO (liouville_representation RO d is_ggm U basis) j i.
 Proof. exact liouville_adjoint. Qed.
 
 (* stacks of unitaries *)
 Theorem C15_stack_entries : forall d basis is_ggm (Us : list (Mat (T:=R))) t i j,
-  label_ok d basis is_ggm -> basis_herm d basis -> (t < length Us)%nat ->
+  close_exact d basis -> basis_herm d basis -> (t < length Us)%nat ->
   (i < length basis)%nat -> (j < length basis)%nat ->
   ftr d (fmul d (Cl basis i) (fmul d (toF (nth t Us [])) (fmul d (Cl basis j) (fadj (toF (nth t Us []))))))
   = (rget RO (nth t (liouville_stack RO d is_ggm Us basis) []) i j, 0).
 Proof. exact liouville_stack_entries. Qed.
 Theorem C15_stack_mult : forall d basis is_ggm Us Vs t i j,
-  label_ok d basis is_ggm -> basis_herm d basis -> basis_complete d basis ->
+  close_exact d basis -> basis_herm d basis -> basis_complete d basis ->
   (t < length Us)%nat -> (t < length Vs)%nat -> (i < length basis)%nat -> (j < length basis)%nat ->
   rget RO (nth t (liouville_stack RO d is_ggm (stack_mul d Us Vs) basis) []) i j
   = sumn' (length basis) (fun k => rget RO (nth t (liouville_stack RO d is_ggm Us basis) []) i k
                                    * rget RO (nth t (liouville_stack RO d is_ggm Vs basis) []) k j).
 Proof. exact liouville_stack_mult. Qed.
 Theorem C15_stack_orthogonal : forall d basis is_ggm (Us : list (Mat (T:=R))) t i j,
-  label_ok d basis is_ggm -> basis_herm d basis -> basis_orth d basis -> basis_complete d basis ->
+  close_exact d basis -> basis_herm d basis -> basis_orth d basis -> basis_complete d basis ->
   (t < length Us)%nat -> funitary d (toF (nth t Us [])) -> (i < length basis)%nat -> (j < length basis)%nat ->
   let L := nth t (liouville_stack RO d is_ggm Us basis) [] in
   sumn' (length basis) (fun k => rget RO L k i * rget RO L k j) = (if Nat.eqb i j then 1 else 0) /\
@@ -92,22 +94,43 @@ Print Assumptions C15_ggm_path_eq_generic.
 Definition C15_ggm_index_full : Prop := forall d, ggm_pairs_src d = ggm_pairs d.
 Theorem C15_ggm_index_partial : forall d, (d < 64)%nat -> ggm_pairs_src d = ggm_pairs d.
 Proof. exact ggm_pairs_src_ok. Qed.
-Theorem C15_all_paths : forall d basis is_ggm U, label_ok d basis is_ggm ->
-  liouville_representation RO d is_ggm U basis = liouville_generic RO d U basis.
+(* EVERY path, no hypothesis on labels: the path switch of the model computes the comparison with Basis.ggm(d)
+   itself; the result differs from the generic expansion by at most eps d^3 |U^dagger C_i U|_1 (entrywise l1 norm),
+   and is the generic expansion itself whenever the guard fails *)
+Theorem C15_all_paths : forall d basis is_ggm U i j, (i < length basis)%nat -> (j < length basis)%nat ->
+  Rabs (rget RO (liouville_representation RO d is_ggm U basis) i j - rget RO (liouville_generic RO d U basis) i j)
+  <= basis_atol RO d * l1norm d (toF (transform_by_unitary RO d U (nthm basis i))).
 Proof. exact liouville_all_paths. Qed.
+Print Assumptions C15_all_paths.
+Theorem C15_all_paths_exact : forall d basis is_ggm U i j, close_exact d basis ->
+  (i < length basis)%nat -> (j < length basis)%nat ->
+  rget RO (liouville_representation RO d is_ggm U basis) i j = rget RO (liouville_generic RO d U basis) i j.
+Proof. exact liouville_all_paths_exact. Qed.
+Theorem C15_guard_false : forall d basis is_ggm U, guard d basis is_ggm = false ->
+  liouville_representation RO d is_ggm U basis = liouville_generic RO d U basis.
+Proof. exact liouville_guard_false. Qed.
+(* what the `==` test of the path switch establishes, and that Basis.ggm(d) has d^2 elements *)
+Theorem C15_ggm_test_spec : forall d basis, basis_is_ggm_flag RO d basis = 1 <-> basis_close d basis.
+Proof. exact ggm_flag_one_iff. Qed.
+Theorem C15_ggm_basis_length : forall d, (0 < d)%nat -> length (ggm_basis RO d) = (d * d)%nat.
+Proof. exact ggm_basis_length. Qed.
 (* the matrix used by the concatenation rule (Model/Numeric.v) is the same one *)
 Theorem C15_numeric_liouville : forall d basis U i j, (i < length basis)%nat -> (j < length basis)%nat ->
   rget RO (liouville RO d U basis) i j = rget RO (liouville_generic RO d U basis) i j.
 Proof. exact liouville_numeric_entry. Qed.
 
-(* FINDING (model mirrors the code): the path switch trusts the label.  A re-ordered Gell-Mann basis that
-   still carries btype 'GGM' (d = 13) does not get its Liouville representation: identity -> not identity. *)
-Theorem C15_label_refuted :
+(* Repaired finding (commit 63446ae).  Before the fix the path switch trusted the label: on a re-ordered Gell-Mann
+   basis that still carries btype 'GGM' (d = 13) the identity was not mapped to the identity ... *)
+Theorem C15_label_prefix_refuted :
   Permutation ggm13_swapped (ggm_basis RO 13) /\
-  rget RO (liouville_representation RO 13 true (mid RO 13) ggm13_swapped) 1 1 = 0 /\
+  rget RO (liouville_representation_prefix RO 13 true (mid RO 13) ggm13_swapped) 1 1 = 0 /\
   rget RO (liouville_generic RO 13 (mid RO 13) ggm13_swapped) 1 1 = 1.
 Proof. exact closed_path_trusts_label. Qed.
-Print Assumptions C15_label_refuted.
+Print Assumptions C15_label_prefix_refuted.
+(* ... now the comparison with Basis.ggm(13) fails for that basis and the generic expansion is used *)
+Theorem C15_label_is_checked :
+  rget RO (liouville_representation RO 13 true (mid RO 13) ggm13_swapped) 1 1 = 1.
+Proof. exact label_is_checked. Qed.
 
 (* ---------- Choi matrix ---------- *)
 Theorem C15_choi_formula : forall d, (0 < d)%nat -> forall basis S Phi r c,
@@ -186,9 +209,14 @@ Theorem C15_verdict_correct : forall N Dl V A thr, eig_valid N Dl V A ->
   (psd_flag RO thr Dl = 1 \/ psd_flag RO thr Dl = 0).
 Proof. exact psd_flag_correct. Qed.
 Print Assumptions C15_verdict_correct.
-Theorem C15_threshold : forall d atol,
-  (atol <> 0 -> eff_atol RO d atol = atol) /\ eff_atol RO d 0 = / 2 ^ 52 * (INR d * (INR d * INR d)).
-Proof. exact (fun d atol => conj (eff_atol_nonzero d atol) (eq_trans (eff_atol_zero d) (basis_atol_val d))). Qed.
+(* tol = atol or eps d^3 max(1, max_k |D_k|) *)
+Theorem C15_threshold : forall d atol D,
+  (atol <> 0 -> eff_atol RO d atol D = atol) /\ eff_atol RO d 0 D = basis_atol RO d * max1abs RO D /\
+  basis_atol RO d = / 2 ^ 52 * (INR d * (INR d * INR d)).
+Proof. exact (fun d atol D => conj (eff_atol_nonzero d atol D) (conj (eff_atol_zero d D) (basis_atol_val d))). Qed.
+Theorem C15_max1abs : forall D, 1 <= max1abs RO D /\ Forall (fun ev => Rabs ev <= max1abs RO D) D /\
+  (max1abs RO D = 1 \/ exists ev, In ev D /\ max1abs RO D = Rabs ev).
+Proof. exact max1abs_spec. Qed.
 
 (* explicit negative direction: transposition (d = 2, Pauli basis): eigenvector (0,1,-1,0), eigenvalue -1 *)
 Theorem C15_transpose_eigenvector : forall r, (r < 4)%nat ->
